@@ -96,10 +96,11 @@ def make_observer(ctl, sched, downstream, use_lock=True):
 class Downstream:
     """the downstream observer: records entry/exit of every callback; the k-th callback raises if k in raises"""
 
-    def __init__(self, ctl, raises):
+    def __init__(self, ctl, raises, hs=None):
         self.ctl, self.raises, self.k = ctl, set(raises), 0
         self.inside = 0
         self.overlap = False
+        self.hs = hs  # (started, go): the first delivery announces itself and lasts until the producer has emitted again
 
     def _cb(self, kind, val):
         ctl = self.ctl
@@ -110,6 +111,9 @@ class Downstream:
         if self.inside > 1:
             self.overlap = True
         ctl.ev("dstart", kind, val, me.local.get("popped") if me is not None else None)
+        if self.hs is not None and k == 0:
+            self.hs[0].set()
+            self.hs[1].wait()
         if me is not None:
             ctl.sched_point(me)  # a delivery takes time: other threads may run while we are inside the callback
         self.inside -= 1
@@ -142,7 +146,8 @@ def run_threads(cfg, preempt=None, opcode=False):
     consumers = []  # controlled-thread idx of consumer j
 
     with ctl.patched(patches):
-        down = Downstream(ctl, cfg.get("raises", []))
+        hs = (ctl.Event("started"), ctl.Event("go")) if cfg.get("handshake") else None
+        down = Downstream(ctl, cfg.get("raises", []), hs)
         if kind == "pool":
             pending = []
             cond = ctl.Condition(name="pool")
@@ -187,7 +192,9 @@ def run_threads(cfg, preempt=None, opcode=False):
         def producer(prog):
             def f():
                 me = ctl.me()
-                for c in prog:
+                for n, c in enumerate(prog):
+                    if hs is not None and n == 1:
+                        hs[0].wait()  # emit the 2nd notification while the 1st is being delivered
                     me.local["item"] = c[1]
                     ctl.ev("call", c[0], c[1])
                     if c[0] == "N":
@@ -197,6 +204,10 @@ def run_threads(cfg, preempt=None, opcode=False):
                     else:
                         obs.on_completed()
                     ctl.ev("ret")
+                    if hs is not None and n == 1:
+                        hs[1].set()
+                if hs is not None:
+                    hs[1].set()
             return f
 
         nprod = len(cfg["progs"])
